@@ -71,6 +71,12 @@ def run(tier):
             out.add('states', res.distinct)
             out.add('transitions', res.generated)
             hists += hs
+        # two paths with the eviction trigger lowered (entries of different paths must never be confused)
+        hs, res = _cache.histories(scratch.sub('h2p'), envset=['Write'], paths='{p1, p2}', contents='{a, b}',
+                                   maxclock=2, maxcalls=4, faults=0, diffmodes='{FALSE}')
+        out.add('states', res.distinct)
+        out.add('transitions', res.generated)
+        two_path = hs if tier == 'thorough' or len(hs) <= 3000 else rng.sample(hs, 3000)
         n_exh = len(hists)
         hs, res = _cache.histories(scratch.sub('sim'), simulate=300 if tier == 'quick' else 3000, seed=rng.randrange(1 << 30),
                                    paths='{p1, p2}', grammars='{g1, g2}', dirs='{d1, d2}', maxclock=8, maxcalls=4, faults=1)
@@ -80,6 +86,10 @@ def run(tier):
                                    maxcalls=4, faults=0)
         hists += hs
         traces, drift = _cache.replay_all(hists, 'hist')
+        t2, d2 = _cache.replay_all(two_path, 'two-path', start_id=len(hists), size_trigger=2)
+        traces += t2
+        drift += d2
+        hists = hists + two_path
         out.drift += drift[:5]
         acc, rej, res = _cache.validate(scratch.sub('val'), traces)
         out.add('states', res.distinct)
